@@ -47,9 +47,7 @@ def dump_facts(src, die):
                 and isinstance(st.test.ops[0], ast.IsNot)):
             die("facts_c17: unexpected statement in dump_text at line %d" % st.lineno)
         tab = st.test.left.id
-        if tab == "provenances":
-            continue
-        if tab not in TABLES:
+        if tab not in TABLES + ("provenances",):
             die("facts_c17: unknown table %r in dump_text" % tab)
         first = st.body[0]
         if not (isinstance(first, ast.Expr) and isinstance(first.value, ast.Call)
@@ -85,7 +83,7 @@ def dump_facts(src, die):
                 die("facts_c17: unrecognised piece %r in the %s row format" % (p, tab))
             fields.append(m.group(1) + "|" + (m.group(2) or ""))
         out[tab] = (header, fields)
-    if sorted(out) != sorted(TABLES):
+    if sorted(out) != sorted(TABLES + ("provenances",)):
         die("facts_c17: dump_text tables %r" % sorted(out))
     return out
 
@@ -151,4 +149,17 @@ def facts(read, die, define):
         lines.append("Definition c17_parse_required_%s : list string := %s." % (tab, clist(req)))
         lines.append("Definition c17_parse_optional_%s : list string := %s." % (tab, clist(opt)))
         lines.append("Definition c17_parse_min_tokens_%s : nat := %d%%nat." % (tab, k))
+    header, fields = d["provenances"]
+    lines.append("Definition c17_dump_header_provenances : list string := %s." % clist(header))
+    lines.append("Definition c17_dump_rowfmt_provenances : list string := %s." % clist(fields))
+    # there is no text reader for provenances (and load_text has no such parameter)
+    tree = ast.parse(read("python/tskit/trees.py"))
+    has_reader = any(isinstance(n, ast.FunctionDef) and n.name == "parse_provenances" for n in tree.body)
+    lt = [n for n in tree.body if isinstance(n, ast.FunctionDef) and n.name == "load_text"]
+    if len(lt) != 1:
+        die("facts_c17: trees.load_text not found")
+    params = [a.arg for a in lt[0].args.args]
+    lines.append("Definition c17_provenances_have_reader : bool := %s."
+                 % ("true" if (has_reader or "provenances" in params) else "false"))
+    lines.append("Definition c17_load_text_params : list string := %s." % clist(params))
     return lines
